@@ -48,7 +48,7 @@ def files(tier, rng):
                 rg.append(rc.make_chunk(c.typ, mask, sizes, base=base))
             rgs.append(rg)
             base += n
-        fs = FileSpec(codec, cols, rgs, dict_encoded=bool(dict_enc))
+        fs = FileSpec(codec, cols, rgs, dict_encoded=(dict_enc not in (None, "PLAIN")))
         if dict_enc:
             fs.use_bytes(rc.pq_bytes(fs, encoding=dict_enc, crc=True, rng=rng))
         return fs
@@ -293,6 +293,67 @@ def placement_groups(tier, rng):
     return groups
 
 
+def special_groups(tier, rng):
+    """coverage audit: INT96, unannounced dictionary page, mixed PLAIN / dictionary chunks (view <-> owned buffer
+    transitions of load_next_page_mmap), empty row groups; reader options = NULL"""
+    groups = []
+    fl = []
+    for fs, kw in C02.special_pq_specs(rng):
+        try:
+            fl.append(fs.use_bytes(rc.pq_bytes(fs, crc=True, rng=rng, **kw)))
+        except Exception as e:
+            log(f"C03: pq.py cannot write {kw}: {e}")
+    fl.append(C02.empty_rowgroup_file(rng))
+    for fs in fl:
+        for opts in ("1", "0", "d"):
+            groups += requests_for(fs, opts, rng, "special")
+            for g in range(len(fs.rgs)):
+                for c in range(len(fs.cols)):
+                    n = len(fs.rows(g, c))
+                    grp = [C02.col_case(fs, g, c, m, f"r{n + 1}", "special", verify=opts) for m in MODES]
+                    for x in grp:
+                        EXPECT[x.line] = "OK " + (f"r{n}:" + ".".join(rc.tok(r) for r in fs.rows(g, c)) if n else "r0")
+                    groups.append(grp)
+            for bs in (1, 3, "d"):
+                groups.append([C02.bat_case(fs, m, bs, "all", list(range(len(fs.cols))), "special", verify=opts) for m in MODES])
+        # projections the file cannot satisfy: the same refusal in the three modes
+        nc = len(fs.cols)
+        for proj, want in ((f"i:0,{nc}", "OK E61 L1"), (f"i:{nc + 2}", "OK E61 L1"), (f"n:{fs.cols[0].name}_", "ERR create 61"),
+                           (f"n:{fs.cols[0].name},nosuchcolumn", "ERR create 61")):
+            grp = [C02.bat_case(fs, m, 2, proj, None, "special") for m in MODES]
+            for x in grp:
+                x.mline = None if proj.startswith("n:") and False else x.mline
+                EXPECT[x.line] = want
+            groups.append(grp)
+    return groups, fl
+
+
+FIXED_ZC = ("i32", "i64", "f32", "f64", "i96")
+
+
+def zc_cases(files, raws):
+    """carquet_reader_can_zero_copy: true exactly for mmap readers and chunks that are uncompressed, PLAIN encoded, of a
+    fixed-width type other than BOOLEAN and without definition levels (its documentation); false for every chunk in
+    the other modes and for indices outside the file"""
+    out = []
+    for fs in files:
+        elig = []
+        for g in range(len(fs.rgs)):
+            for c, col in enumerate(fs.cols):
+                e = fs.codec == 0 and not fs.dict_encoded and not col.nullable and (col.typ in FIXED_ZC or col.typ.startswith("fl"))
+                elig.append(f"g{g}c{c}={1 if e else 0}")
+        for m in MODES:
+            want = f"OK mmap={1 if m == 'm' else 0} " + " ".join(x if m == "m" else x[:-1] + "0" for x in elig) + " out=0000"
+            out.append((f"zc {m} 1 {fs.impl_text()}", want))
+    for f in raws:
+        plain = "-UNCOMPRESSED-PLAIN-" in f.label
+        elig = [f"g0c{c}={1 if (plain and md == 0) else 0}" for c, (md, mr) in enumerate(f.levels)]
+        for m in MODES:
+            want = f"OK mmap={1 if m == 'm' else 0} " + " ".join(x if m == "m" else x[:-1] + "0" for x in elig) + " out=0000"
+            out.append((f"zc {m} 1 {f.impl_text()}", want))
+    return out
+
+
 def footer_cases(drv, tier, rng, fls):
     """(line, expectation) for the footer-location tie.  expectation: 'ok' (a valid file), 'fail' (no mode may open
     it), 'head' (leading magic damaged: stdio does not look at it), None (whatever)"""
@@ -379,8 +440,9 @@ def run(tier):
         rep.tie_broken("tools/gen.d/reader.py could not list the reader options the code reads: " + str(e)[:200])
     fls = files(tier, rng)
     EXPECT.clear()
+    sg, sfiles = special_groups(tier, rng)
     groups = (corpus_groups() + gen_cases(tier, rng, fls) + option_and_footer_groups(drv, tier, rng, fls) +
-              nested_groups(tier, rng) + placement_groups(tier, rng))
+              nested_groups(tier, rng) + placement_groups(tier, rng) + sg)
     cases = [c for g in groups for c in g]
     lines = [c.line for c in cases]
     log(f"C03: {len(groups)} requests x 3 modes")
@@ -412,12 +474,12 @@ def run(tier):
                 f"{g[0].kind}: the three I/O modes deliver different results (mode(s) {','.join(diff)} differ from stdio): "
                 f"f={outs[0][:300]} m={outs[1][:300]} b={outs[2][:300]}",
                 {"case": g[1 if 'm' in diff else 2].line, "modes": [x.line for x in g], "got": outs})
-        elif not outs[0].startswith("OK"):
+        elif g[0].line not in EXPECT and not outs[0].startswith("OK"):
             tally.violation(f"{g[0].kind}: a valid file is refused in every mode: {outs[0][:200]}", {"case": g[0].line})
         elif g[0].line in EXPECT and outs[0] != EXPECT[g[0].line]:
             tally.violation(f"{g[0].kind}: all three modes agree but deliver something else than the file holds (ground truth of "
                             f"the independent writer): got {outs[0][:300]}, file holds {EXPECT[g[0].line][:300]}", {"case": g[0].line})
-        elif g[0].kind == "bat" and not outs[0].endswith(" L1"):
+        elif g[0].kind == "bat" and outs[0].startswith("OK") and not outs[0].endswith(" L1"):
             tally.violation("data handed out in a batch changed before the reader was closed", {"case": g[0].line, "got": outs})
     rep.cov["input_distribution"] = dist
     rep.cov["violations_total"] = tally.n
@@ -440,6 +502,16 @@ def run(tier):
             if bad <= 5:
                 rep.tie_broken(f"extracted model and implementation print different lines: model {b[:300]} / impl {impl[i][:300]}", c.line)
     rep.cov["model_tie_mismatches"] = bad
+    # ---- carquet_reader_can_zero_copy against its documented rule
+    zcs = zc_cases(fls + sfiles + placement_files(tier, random.Random(vlib.SEED)), rc.nested_files(random.Random(vlib.SEED), False))
+    zo, zd = rc.run_resilient(drv, [z[0] for z in zcs], env=ENV)
+    for (line, want), got in zip(zcs, zo):
+        rep.count(line)
+        if got != want:
+            tally.violation(f"carquet_reader_can_zero_copy disagrees with its documented rule (mmap reader, uncompressed, PLAIN, "
+                            f"fixed-width non-BOOLEAN type, no definition levels): got {got[:200]}, rule gives {want[:200]}",
+                            {"case": line, "got": got, "want": want})
+    rep.cov["zero_copy_query_cases"] = len(zcs)
     # ---- footer location
     fcs = footer_cases(drv, tier, rng, fls)
     flines = [x[0] for x in fcs]
@@ -473,6 +545,10 @@ def replay(path):
     if not lines:
         print(json.dumps(j, indent=1))
         return 1
+    if len(lines) == 1 and lines[0].split()[0] == "zc":
+        out, deaths = rc.run_resilient(drv, lines, env=ENV, shards=1)
+        print("case:", lines[0][:300]); print("  ->", out[0]); print("rule:", r.get("want")); print("what:", j.get("what"))
+        return 0 if out[0] == r.get("want") else 1
     if len(lines) == 1 and lines[0].split()[0] in ("col", "bat", "meta"):
         t = lines[0].split()
         lines = [" ".join([t[0], m] + t[2:]) for m in MODES]
